@@ -159,7 +159,7 @@ def parse_unit(path):
             while i < len(lines) and not lines[i].startswith("@"):
                 txt.append(lines[i])
                 i += 1
-            u.ghosts.append((m.group(1), m.group(2), m.group(3), "\n".join(txt).rstrip()))
+            u.ghosts.append((m.group(1), m.group(2), m.group(3), "\n".join(txt).rstrip(), None))
         elif d == "@attr":
             q, a = rest.split(None, 1)
             u.attrs.setdefault(q, []).append(a)
@@ -171,6 +171,15 @@ def parse_unit(path):
             u.sigs[q] = nm
         elif d == "@external":
             u.external[rest.strip()] = True
+        elif d == "@check":
+            m = re.match(r"(\S+)\s+\[(\w+)\]\s+(before|after)\s+`(.*)`\s*$", rest)
+            if not m:
+                raise Undecided("bad @check in %s:%d" % (path, i))
+            txt = []
+            while i < len(lines) and not lines[i].startswith("@"):
+                txt.append(lines[i])
+                i += 1
+            u.ghosts.append((m.group(1), m.group(3), m.group(4), "assert(" + " ".join(x.strip() for x in txt if x.strip()) + ");", m.group(2)))
         elif d == "@lift":
             # @lift Qual::fn async_block => <call expression> ;; <signature of the lifted fn>
             q, rest2 = rest.split(None, 1)
@@ -1065,20 +1074,22 @@ def self_emit_fn(em, res, u, rw, qual, sig, body, orig, rel, self_subst, mode, d
         if k < 1 or k > len(loops):
             raise Undecided("loop ordinal %d out of range in %s (%d loops)" % (k, qual, len(loops)))
         inserts.append((loops[k - 1][1], ("loop", k, cls)))
-    for (q, where, anchor, txt) in u.ghosts:
+    for (q, where, anchor, txt, glabel) in u.ghosts:
         if q != qual:
             continue
         if where == "body-start":
-            inserts.append((1, ("raw", txt)))
+            inserts.append((1, ("raw", txt, glabel)))
             continue
         n = new_body.count(anchor)
         if n != 1:
             raise Undecided("lost anchor: @ghost %s `%s` occurs %d times in %s" % (where, anchor[:50], n, qual))
         at = new_body.index(anchor)
-        inserts.append((at if where == "before" else at + len(anchor), ("raw", txt)))
-    if mode == "vac_loop":
-        for (kwi, bo) in loops:
-            inserts.append((bo + 1, ("raw", " assert(false); ")))
+        inserts.append((at if where == "before" else at + len(anchor), ("raw", txt, glabel)))
+    if mode.startswith("vac_loop"):
+        want = int(mode.split(":")[1]) if ":" in mode else None
+        for li, (kwi, bo) in enumerate(loops):
+            if want is None or want == li + 1:
+                inserts.append((bo + 1, ("raw", " assert(false); ")))
     if mode == "vac_fn" and not external:
         inserts.append((1, ("raw", " assert(false); ")))
     inserts.sort(key=lambda x: x[0])
@@ -1124,7 +1135,7 @@ def self_emit_fn(em, res, u, rw, qual, sig, body, orig, rel, self_subst, mode, d
                     em.add(indent + cur)
                     cur = ""
                 a, b = em.add(p[1])
-                res.clause_lines.append((a, b, qual, "proof_hints", "ghost"))
+                res.clause_lines.append((a, b, qual, (p[2] if len(p) > 2 and p[2] else "proof_hints"), "ghost"))
             else:
                 cur += "\n" + p[1] + "\n"
         elif p[0] == "loop":
